@@ -715,4 +715,394 @@ theorem cancelMMs_single (c v : Nat) (w : Words) (l : List Nat) : ∀ (s s' : St
         rw [h3] at g1
         exact ⟨g1, g2, fun hx => g3 (h5 hx)⟩
 
+theorem mem_insertKV {κ : Type} [DecidableEq κ] (k : κ) (v : Nat) (l : List (κ × Nat)) (p : κ × Nat) :
+    p ∈ insertKV k v l ↔ p = (k, v) ∨ (p ∈ l ∧ p.1 ≠ k) := by
+  simp [insertKV, List.mem_filter]
+
+/-- second invariant of reachable states: guards imply a backup, method mockers belong to their cached mocker's
+    context, the builder's interface table has one entry per key and the key names the entry's variable -/
+structure Inv2 (cfg : Cfg) (s : St) : Prop where
+  g : ∀ i, (s.mms i).hasGuard = true → (s.mms i).ctx < s.nctx ∧ ∃ x, (s.ctxs (s.mms i).ctx).backup = some x
+  r : ∀ j, j < s.ncm → ∀ p ∈ (s.cms j).meths, p.2 < s.nmm ∧ (s.mms p.2).ctx = (s.cms j).ctx
+  f : ∀ b, ∀ p ∈ (s.blds b).mockers, p.2 < s.ncm
+  k : cfg.keyByVar = true → ∀ b, ∀ p ∈ (s.blds b).mockers, p.1 = (s.vtyp (s.cms p.2).var, (s.cms p.2).var + 1)
+  n : ∀ b p p', p ∈ (s.blds b).mockers → p' ∈ (s.blds b).mockers → p.1 = p'.1 → p = p'
+
+theorem inv2_init (cfg : Cfg) (types : Nat → List String) (vtyp : Nat → Nat) (vars : Nat → Words) :
+    Inv2 cfg (St.init types vtyp vars) := by
+  refine ⟨?_, ?_, ?_, ?_, ?_⟩ <;> simp [St.init]
+
+theorem inv2_ncb (cfg : Cfg) (s : St) (n : Nat) (h : Inv2 cfg s) : Inv2 cfg { s with ncb := n } :=
+  ⟨h.g, h.r, h.f, h.k, h.n⟩
+
+theorem inv2_freshCM (cfg : Cfg) (s : St) (b v : Nat) (h : Inv2 cfg s) : Inv2 cfg (freshCM cfg s b v).2 := by
+  obtain ⟨hg, hr, hf, hk, hn⟩ := h
+  refine ⟨?_, ?_, ?_, ?_, ?_⟩ <;> simp only [freshCM, bkey] <;> intros
+  all_goals grind [upd, mem_insertKV]
+
+theorem inv2_interfaceOf (cfg : Cfg) (s : St) (b v : Nat) (h : Inv2 cfg s) : Inv2 cfg (interfaceOf cfg s b v).2 := by
+  unfold interfaceOf
+  split
+  · split
+    · exact inv2_freshCM cfg s b v h
+    · exact h
+  · exact inv2_freshCM cfg s b v h
+
+theorem inv2_freshMM (cfg : Cfg) (s : St) (j : Nat) (m : String) (hj : j < s.ncm) (h : Inv2 cfg s) :
+    Inv2 cfg (freshMM s j m).2 := by
+  obtain ⟨hg, hr, hf, hk, hn⟩ := h
+  refine ⟨?_, ?_, ?_, ?_, ?_⟩ <;> simp only [freshMM] <;> intros
+  all_goals grind [upd, mem_insertKV]
+
+theorem inv2_methodOf (cfg : Cfg) (s : St) (j : Nat) (m : String) (hj : j < s.ncm) (h : Inv2 cfg s) :
+    Inv2 cfg (methodOf s j m).2 := by
+  unfold methodOf
+  split
+  · split
+    · exact inv2_freshMM cfg s j m hj h
+    · exact h
+  · exact inv2_freshMM cfg s j m hj h
+
+/-- the method mocker `Method(name)` returns belongs to the cached mocker's context -/
+theorem methodOf_ctx (cfg : Cfg) (s : St) (j : Nat) (m : String) (hj : j < s.ncm) (h : Inv2 cfg s) :
+    ((methodOf s j m).2.mms (methodOf s j m).1).ctx = (s.cms j).ctx := by
+  unfold methodOf
+  split
+  · rename_i i hl
+    split
+    · simp [freshMM]
+    · exact (h.r j hj _ (lookup_mem _ _ _ hl)).2
+  · simp [freshMM]
+
+
+theorem inv2_proxyInterface (cfg : Cfg) (s s' : St) (v t c : Nat) (m : String) (k : Nat) (cb : Cb) (h : Inv2 cfg s)
+    (hs : proxyInterface cfg s v t c m k cb = some s') :
+    Inv2 cfg s' ∧ s'.mms = s.mms ∧ s'.nctx = s.nctx ∧ (∃ x, (s'.ctxs c).backup = some x) := by
+  obtain ⟨hg, hr, hf, hk, hn⟩ := h
+  simp only [proxyInterface] at hs
+  split at hs
+  · cases hs
+  · split at hs
+    · cases hs
+      refine ⟨⟨?_, ?_, ?_, ?_, ?_⟩, rfl, rfl, ?b⟩
+      case b => simp only [upd_same]; cases (s.ctxs c).backup <;> exact ⟨_, rfl⟩
+      all_goals simp only [] <;> intros
+      all_goals grind [upd]
+    · cases hs
+      refine ⟨⟨?_, ?_, ?_, ?_, ?_⟩, rfl, rfl, ?b⟩
+      case b => simp only [upd_same]; cases (s.ctxs c).backup <;> exact ⟨_, rfl⟩
+      all_goals simp only [] <;> intros
+      all_goals grind [upd]
+
+/-- the method mocker's fields after a successful apply -/
+theorem inv2_guard (cfg : Cfg) (s : St) (i : Nat) (mm' : MM) (h : Inv2 cfg s) (hc : mm'.ctx = (s.mms i).ctx)
+    (hlt : (s.mms i).ctx < s.nctx) (hb : ∃ x, (s.ctxs (s.mms i).ctx).backup = some x) :
+    Inv2 cfg { s with mms := upd s.mms i mm' } := by
+  obtain ⟨hg, hr, hf, hk, hn⟩ := h
+  refine ⟨?_, ?_, ?_, ?_, ?_⟩ <;> simp only [] <;> intros
+  all_goals grind [upd]
+
+theorem inv2_cancelCtx (cfg : Cfg) (s s' : St) (c : Nat) (h : Inv2 cfg s) (hs : cancelCtx s c = some s') : Inv2 cfg s' := by
+  obtain ⟨hg, hr, hf, hk, hn⟩ := h
+  simp only [cancelCtx] at hs
+  split at hs
+  · cases hs
+    refine ⟨?_, ?_, ?_, ?_, ?_⟩ <;> simp only [] <;> intros
+    all_goals grind [upd]
+  · cases hs
+
+/-- changing fields other than `ctx` / `hasGuard` of a method mocker -/
+theorem inv2_mmfields (cfg : Cfg) (s : St) (i : Nat) (mm' : MM) (h : Inv2 cfg s) (hc : mm'.ctx = (s.mms i).ctx)
+    (hgd : mm'.hasGuard = (s.mms i).hasGuard) : Inv2 cfg { s with mms := upd s.mms i mm' } := by
+  obtain ⟨hg, hr, hf, hk, hn⟩ := h
+  refine ⟨?_, ?_, ?_, ?_, ?_⟩ <;> simp only [] <;> intros
+  all_goals grind [upd]
+
+theorem inv2_cancelMM (cfg : Cfg) (s s' : St) (i : Nat) (h : Inv2 cfg s) (hs : cancelMM s i = some s') : Inv2 cfg s' := by
+  simp only [cancelMM] at hs
+  split at hs
+  · cases hq : cancelCtx s (s.mms i).ctx with
+    | none => simp [hq] at hs
+    | some s1 =>
+      simp only [hq, Option.map_some, Option.some.injEq] at hs
+      subst hs
+      have h1 := inv2_cancelCtx cfg s s1 _ h hq
+      have e : s1.mms = s.mms := by
+        simp only [cancelCtx] at hq
+        split at hq
+        · cases hq; rfl
+        · cases hq
+      exact inv2_mmfields cfg s1 i _ h1 (by rw [e]) (by rw [e])
+  · simp only [Option.map_some, Option.some.injEq] at hs
+    subst hs
+    exact inv2_mmfields cfg s i _ h rfl rfl
+
+theorem inv2_cancelMMs (cfg : Cfg) (l : List Nat) : ∀ (s s' : St), Inv2 cfg s → cancelMMs s l = some s' → Inv2 cfg s' := by
+  induction l with
+  | nil => intro s s' hI hs; simp only [cancelMMs, Option.some.injEq] at hs; subst hs; exact hI
+  | cons i r ih =>
+    intro s s' hI hs
+    simp only [cancelMMs] at hs
+    cases hq : cancelMM s i with
+    | none => simp [hq] at hs
+    | some s1 =>
+      simp only [hq, Option.bind_some] at hs
+      exact ih s1 s' (inv2_cancelMM cfg s s1 i hI hq) hs
+
+theorem inv2_drop (cfg : Cfg) (s : St) (b : Nat) (h : Inv2 cfg s) :
+    Inv2 cfg { s with blds := upd s.blds b { s.blds b with alive := false } } := by
+  obtain ⟨hg, hr, hf, hk, hn⟩ := h
+  refine ⟨?_, ?_, ?_, ?_, ?_⟩ <;> simp only [] <;> intros
+  all_goals grind [upd]
+
+
+theorem inv2_mockOn (cfg : Cfg) (s1 s' : St) (j : Nat) (m : String) (kind : Kind) (fits : Bool) (k : Nat) (st : Status)
+    (hI : Inv cfg s1) (h2 : Inv2 cfg s1) (hj : j < s1.ncm) (hs : mockOn cfg s1 j m kind fits k = some (s', st)) :
+    Inv2 cfg s' := by
+  simp only [mockOn] at hs
+  split at hs
+  · simp only [Option.some.injEq, Prod.mk.injEq] at hs; obtain ⟨e, _⟩ := hs; subst e; exact h2
+  split at hs
+  · simp only [Option.some.injEq, Prod.mk.injEq] at hs; obtain ⟨e, _⟩ := hs; subst e; exact h2
+  have f2 := methodOf_facts s1 j m
+  have hm2 := inv2_methodOf cfg s1 j m hj h2
+  have hcx := methodOf_ctx cfg s1 j m hj h2
+  generalize methodOf s1 j m = r2 at hs f2 hm2 hcx
+  obtain ⟨i, s2⟩ := r2
+  simp only at hs f2 hm2 hcx
+  obtain ⟨g1, g2, g3, g4, g5, g6, g7, g8, g9, g10, g11, g12, g13, g14⟩ := f2
+  have hlt : (s1.cms j).ctx < s1.nctx := (hI.e j hj).1
+  have fin : ∀ (cb : Cb) (s3 : St) (mm' : MM), proxyInterface cfg s2 (s1.cms j).var (s1.cms j).typ (s1.cms j).ctx m k cb = some s3 →
+      mm'.ctx = (s2.mms i).ctx → Inv2 cfg { s3 with mms := upd s3.mms i mm' } := by
+    intro cb s3 mm' hq hc
+    obtain ⟨q1, q2, q3, q4⟩ := inv2_proxyInterface cfg s2 s3 _ _ _ m k cb hm2 hq
+    have e1 : (s3.mms i).ctx = (s1.cms j).ctx := by rw [q2, hcx]
+    exact inv2_guard cfg s3 i mm' q1 (by rw [hc, q2]) (by rw [e1, q3, g13]; exact hlt) (by rw [e1]; exact q4)
+  cases kind with
+  | ap =>
+    simp only at hs
+    split at hs
+    · simp only [Option.some.injEq, Prod.mk.injEq] at hs; obtain ⟨e, _⟩ := hs; subst e; exact hm2
+    cases hq : proxyInterface cfg s2 (s1.cms j).var (s1.cms j).typ (s1.cms j).ctx m k .clo with
+    | none => simp [hq] at hs
+    | some s3 =>
+      simp only [hq, Option.map_some, Option.some.injEq, Prod.mk.injEq] at hs
+      obtain ⟨e, _⟩ := hs; subst e
+      exact fin _ s3 _ hq rfl
+  | rt =>
+    simp only at hs
+    split at hs
+    · cases hs
+    split at hs
+    · simp only [Option.some.injEq, Prod.mk.injEq] at hs; obtain ⟨e, _⟩ := hs; subst e; exact hm2
+    cases hq : proxyInterface cfg s2 (s1.cms j).var (s1.cms j).typ (s1.cms j).ctx m k (.mk i) with
+    | none => simp [hq] at hs
+    | some s3 =>
+      simp only [hq, Option.map_some, Option.some.injEq, Prod.mk.injEq] at hs
+      obtain ⟨e, _⟩ := hs; subst e
+      exact fin _ s3 _ hq rfl
+  | wn a =>
+    simp only at hs
+    split at hs
+    · cases hs
+    split at hs
+    · simp only [Option.some.injEq, Prod.mk.injEq] at hs; obtain ⟨e, _⟩ := hs; subst e; exact hm2
+    cases hq : proxyInterface cfg s2 (s1.cms j).var (s1.cms j).typ (s1.cms j).ctx m k (.mk i) with
+    | none => simp [hq] at hs
+    | some s3 =>
+      simp only [hq, Option.map_some, Option.some.injEq, Prod.mk.injEq] at hs
+      obtain ⟨e, _⟩ := hs; subst e
+      exact fin _ s3 _ hq rfl
+
+theorem inv2_step (cfg : Cfg) (s s' : St) (op : Op) (st : Status) (hI : Inv cfg s) (h2 : Inv2 cfg s)
+    (hapi : op.builderApi = true) (hs : step cfg s op = some (s', st)) : Inv2 cfg s' := by
+  cases op with
+  | mock b v m kind fits =>
+    simp only [step, mockStep] at hs
+    have hI0 := inv_ncb cfg s (s.ncb + 1) hI
+    have f1 := interfaceOf_facts cfg _ b v hI0
+    have hI1 := inv_interfaceOf cfg _ b v hI0
+    have h21 := inv2_interfaceOf cfg _ b v (inv2_ncb cfg s (s.ncb + 1) h2)
+    generalize interfaceOf cfg { s with ncb := s.ncb + 1 } b v = r1 at hs f1 hI1 h21
+    obtain ⟨j, s1⟩ := r1
+    exact inv2_mockOn cfg s1 s' j m kind fits _ st hI1 h21 f1.1 hs
+  | mockH b v m kind fits => simp [Op.builderApi] at hapi
+  | cancelM b v m =>
+    simp only [step, cancelMStep] at hs
+    have f1 := interfaceOf_facts cfg s b v hI
+    have h21 := inv2_interfaceOf cfg s b v h2
+    generalize interfaceOf cfg s b v = r1 at hs f1 h21
+    obtain ⟨j, s1⟩ := r1
+    simp only at hs f1 h21
+    split at hs
+    · simp only [Option.some.injEq, Prod.mk.injEq] at hs; obtain ⟨e, _⟩ := hs; subst e; exact h21
+    split at hs
+    · simp only [Option.some.injEq, Prod.mk.injEq] at hs; obtain ⟨e, _⟩ := hs; subst e; exact h21
+    have hm2 := inv2_methodOf cfg s1 j m f1.1 h21
+    generalize methodOf s1 j m = r2 at hs hm2
+    obtain ⟨i, s2⟩ := r2
+    simp only at hs hm2
+    cases hq : cancelMM s2 i with
+    | none => simp [hq] at hs
+    | some s3 =>
+      simp only [hq, Option.map_some, Option.some.injEq, Prod.mk.injEq] at hs
+      obtain ⟨e, _⟩ := hs; subst e
+      exact inv2_cancelMM cfg s2 s3 i hm2 hq
+  | reset b =>
+    simp only [step, resetStep] at hs
+    cases hq : cancelMMs s (mmsOf s b) with
+    | none => simp [hq] at hs
+    | some s1 =>
+      simp only [hq, Option.map_some, Option.some.injEq, Prod.mk.injEq] at hs
+      obtain ⟨e, _⟩ := hs; subst e
+      exact inv2_cancelMMs cfg _ s s1 h2 hq
+  | drop b =>
+    simp only [step, Option.some.injEq, Prod.mk.injEq] at hs
+    obtain ⟨e, _⟩ := hs; subst e
+    exact inv2_drop cfg s b h2
+
+theorem inv2_run (cfg : Cfg) (ops : List Op) : ∀ (s s' : St), Inv cfg s → Inv2 cfg s → (∀ op ∈ ops, op.builderApi = true) →
+    run cfg s ops = some s' → Inv2 cfg s' := by
+  induction ops with
+  | nil => intro s s' _ h2 _ hs; simp only [run, Option.some.injEq] at hs; subst hs; exact h2
+  | cons op r ih =>
+    intro s s' hI h2 hapi hs
+    simp only [run] at hs
+    cases hq : step cfg s op with
+    | none => simp [hq] at hs
+    | some p =>
+      obtain ⟨s1, st⟩ := p
+      simp only [hq, Option.bind_some] at hs
+      have ha := hapi op List.mem_cons_self
+      exact ih s1 s' (inv_step cfg s s1 op st hI ha hq) (inv2_step cfg s s1 op st hI h2 ha hq)
+        (fun o ho => hapi o (List.mem_cons_of_mem _ ho)) hs
+
+theorem cancelMM_gen (s s' : St) (i : Nat) (hs : cancelMM s i = some s') :
+    (∀ c, (s'.ctxs c).backup = (s.ctxs c).backup)
+    ∧ (∀ i', (s'.mms i').ctx = (s.mms i').ctx ∧ (s'.mms i').hasGuard = (s.mms i').hasGuard)
+    ∧ (∀ c, (s.ctxs c).canceled = true → (s'.ctxs c).canceled = true)
+    ∧ ((s.mms i).hasGuard = false → s'.vars = s.vars)
+    ∧ ((s.mms i).hasGuard = true → ∃ v w, (s.ctxs (s.mms i).ctx).backup = some (v, w) ∧ s'.vars = upd s.vars v w
+          ∧ (s'.ctxs (s.mms i).ctx).canceled = true) := by
+  simp only [cancelMM, cancelCtx] at hs
+  by_cases hg : (s.mms i).hasGuard = true
+  · simp only [hg, if_true] at hs
+    cases hb : (s.ctxs (s.mms i).ctx).backup with
+    | none => simp [hb] at hs
+    | some bk =>
+      obtain ⟨v, w⟩ := bk
+      simp only [hb, Option.map_some, Option.some.injEq] at hs
+      subst hs
+      refine ⟨?_, ?_, ?_, ?_, ?_⟩
+      · intro c
+        by_cases h : c = (s.mms i).ctx
+        · subst h; simp [hb]
+        · simp [upd_other _ _ _ _ h]
+      · intro i'
+        by_cases h : i' = i
+        · subst h; simp [hg]
+        · simp [upd_other _ _ _ _ h]
+      · intro c hc
+        by_cases h : c = (s.mms i).ctx
+        · subst h; simp
+        · simp [upd_other _ _ _ _ h, hc]
+      · intro h; rw [hg] at h; cases h
+      · intro _; exact ⟨v, w, rfl, rfl, by simp⟩
+  · have hg' : (s.mms i).hasGuard = false := by simpa using hg
+    simp only [hg', Bool.false_eq_true, if_false, Option.map_some, Option.some.injEq] at hs
+    subst hs
+    refine ⟨fun _ => rfl, ?_, fun _ h => h, fun _ => rfl, fun h => by rw [hg'] at h; cases h⟩
+    intro i'
+    by_cases h : i' = i
+    · subst h; simp [hg']
+    · simp [upd_other _ _ _ _ h]
+
+theorem cancelMM_total (s : St) (i : Nat) (h : (s.mms i).hasGuard = true → ∃ x, (s.ctxs (s.mms i).ctx).backup = some x) :
+    ∃ s', cancelMM s i = some s' := by
+  simp only [cancelMM, cancelCtx]
+  by_cases hg : (s.mms i).hasGuard = true
+  · obtain ⟨⟨v, w⟩, hx⟩ := h hg
+    simp [hg, hx]
+  · simp [hg]
+
+/-- guarded member of `l` whose context saved variable `u` -/
+def Binds (s : St) (l : List Nat) (u : Nat) (w : Words) : Prop :=
+  ∃ i ∈ l, (s.mms i).hasGuard = true ∧ (s.ctxs (s.mms i).ctx).backup = some (u, w)
+
+/-- `Builder.Reset` over any list of method mockers, in any order: it cannot fail when every guard has a backup; a variable
+    no guarded member saved is unchanged; a variable saved by guarded members that agree on the saved words holds them;
+    the context of every guarded member is canceled. -/
+theorem cancelMMs_gen (l : List Nat) : ∀ (s : St),
+    (∀ i ∈ l, (s.mms i).hasGuard = true → ∃ x, (s.ctxs (s.mms i).ctx).backup = some x) →
+    ∃ s', cancelMMs s l = some s'
+      ∧ (∀ c, (s'.ctxs c).backup = (s.ctxs c).backup)
+      ∧ (∀ i', (s'.mms i').ctx = (s.mms i').ctx ∧ (s'.mms i').hasGuard = (s.mms i').hasGuard)
+      ∧ (∀ c, (s.ctxs c).canceled = true → (s'.ctxs c).canceled = true)
+      ∧ (∀ u, (¬ ∃ w, Binds s l u w) → s'.vars u = s.vars u)
+      ∧ (∀ u w, Binds s l u w → (∀ w', Binds s l u w' → w' = w) → s'.vars u = w)
+      ∧ (∀ i ∈ l, (s.mms i).hasGuard = true → (s'.ctxs (s.mms i).ctx).canceled = true) := by
+  induction l with
+  | nil =>
+    intro s _
+    refine ⟨s, rfl, fun _ => rfl, fun _ => ⟨rfl, rfl⟩, fun _ h => h, fun _ _ => rfl, ?_, ?_⟩
+    · intro u w ⟨i, hi, _⟩; cases hi
+    · intro i hi; cases hi
+  | cons i0 r ih =>
+    intro s hG
+    obtain ⟨s1, h1⟩ := cancelMM_total s i0 (hG i0 List.mem_cons_self)
+    obtain ⟨a1, a2, a3, a4, a5⟩ := cancelMM_gen s s1 i0 h1
+    have hG1 : ∀ i ∈ r, (s1.mms i).hasGuard = true → ∃ x, (s1.ctxs (s1.mms i).ctx).backup = some x := by
+      intro i hi hg
+      rw [(a2 i).2] at hg
+      rw [(a2 i).1, a1]
+      exact hG i (List.mem_cons_of_mem _ hi) hg
+    obtain ⟨s', b0, b1, b2, b3, b4, b5, b6⟩ := ih s1 hG1
+    have bindsEq : ∀ u w, Binds s1 r u w ↔ Binds s r u w := by
+      intro u w
+      constructor
+      · rintro ⟨i, hi, hg, hb⟩
+        exact ⟨i, hi, by rw [← (a2 i).2]; exact hg, by rw [← (a2 i).1, ← a1]; exact hb⟩
+      · rintro ⟨i, hi, hg, hb⟩
+        exact ⟨i, hi, by rw [(a2 i).2]; exact hg, by rw [(a2 i).1, a1]; exact hb⟩
+    have sub : ∀ u w, Binds s r u w → Binds s (i0 :: r) u w := fun u w ⟨i, hi, hg, hb⟩ => ⟨i, List.mem_cons_of_mem _ hi, hg, hb⟩
+    refine ⟨s', by simp [cancelMMs, h1, b0], fun c => by rw [b1, a1], fun i' => ⟨by rw [(b2 i').1, (a2 i').1], by rw [(b2 i').2, (a2 i').2]⟩,
+      fun c hc => b3 c (a3 c hc), ?_, ?_, ?_⟩
+    · -- unbound variables
+      intro u hu
+      have hr : ¬ ∃ w, Binds s1 r u w := fun ⟨w, hw⟩ => hu ⟨w, sub u w ((bindsEq u w).mp hw)⟩
+      rw [b4 u hr]
+      by_cases hg : (s.mms i0).hasGuard = true
+      · obtain ⟨v, w, hb, hv, _⟩ := a5 hg
+        rw [hv]
+        have : u ≠ v := by
+          intro e; subst e
+          exact hu ⟨w, i0, List.mem_cons_self, hg, hb⟩
+        exact upd_other _ _ _ _ this
+      · rw [a4 (by simpa using hg)]
+    · -- bound variables
+      intro u w hb huniq
+      by_cases hr : ∃ w', Binds s1 r u w'
+      · obtain ⟨w', hw'⟩ := hr
+        have e : w' = w := huniq w' (sub u w' ((bindsEq u w').mp hw'))
+        subst e
+        exact b5 u w' hw' (fun w'' h'' => huniq w'' (sub u w'' ((bindsEq u w'').mp h'')))
+      · rw [b4 u hr]
+        obtain ⟨i, hi, hg, hbk⟩ := hb
+        rcases List.mem_cons.mp hi with e | hi'
+        · subst e
+          obtain ⟨v, w2, hb2, hv, _⟩ := a5 hg
+          rw [hbk] at hb2
+          cases hb2
+          rw [hv]; exact upd_same _ _ _
+        · exact absurd ⟨w, (bindsEq u w).mpr ⟨i, hi', hg, hbk⟩⟩ hr
+    · -- contexts canceled
+      intro i hi hg
+      rcases List.mem_cons.mp hi with e | hi'
+      · subst e
+        obtain ⟨_, _, _, _, hc⟩ := a5 hg
+        exact b3 _ hc
+      · have := b6 i hi' (by rw [(a2 i).2]; exact hg)
+        rw [(a2 i).1] at this
+        exact this
+
 end C07L
